@@ -30,12 +30,12 @@ def run(rep, tier):
         tier_table(rep, "T8-insertEntry-interval", "insertEntry", "interval", k, new_interval, MODES,
                    lambda I, t, sy, mode: I.call_value(I.getattr(t, "insertEntry"), [Tup(list(sy["new"]), "Interval"), mode[0], mode[1]], {}),
                    lambda O, ents, m, M, sy, mode: specs.insert_entry_interval(O, ents, m, M, sy["new"], mode[0], mode[1]),
-                   "%d generic entries x new interval" % k, span_atoms=True)
+                   "%d generic entries x new interval" % k, span_atoms=True, exact=True)
     for k in ks:
         tier_table(rep, "T8-insertEntry-point", "insertEntry", "point", k, new_point, MODES,
                    lambda I, t, sy, mode: I.call_value(I.getattr(t, "insertEntry"), [Tup(list(sy["new"]), "Point"), mode[0], mode[1]], {}),
                    lambda O, ents, m, M, sy, mode: specs.insert_entry_point(O, ents, m, M, sy["new"], mode[0], mode[1]),
-                   "%d generic points x new point" % k, strict_ties=True)
+                   "%d generic points x new point" % k, strict_ties=True, exact=True)
 
     # deleteEntry: present entry i removed; absent entry raises
     for kind in ("interval", "point"):
